@@ -73,8 +73,11 @@ from tangermeme.tools import fimo as F
 #       motif  [[0, 3.13e-05], [0, 6.11e-07], [0, 1.77e-07], [0, 0.99997]]   (4 x 2, first column all zero)
 #       sequence 'CTGGNNCACTTGCCNCCTCACAGNAAANCAGGAGAC': the window 'NN' at start 4 has score 0.0, the
 #       highest attainable discretised score is -93 (table bins -226 .. -91), reported p-value 0.25, exact 0.
-#   A one-column motif [[0.14], [0.17], [0.11], [0.17]] (sum < 1, hence all log-odds negative) against an N
-#   gives p = 0.958 instead of 0 in the same way.
+#   A one-column motif [[0.14], [0.17], [0.11], [0.17]] (sum < 1, hence all log-odds negative) scanned over
+#   'ACGTNACGT' (threshold 1.0) reports the N at start 4 with whatever lies behind its table (1.0, 0.958, ...
+#   depending on the neighbouring motifs) instead of 0.
+#   (replay: {'kind': 'fimo-p', 'pwms': [that motif], 'seqs': [that sequence], 'eps': 0.0001, 'bin': 0.1, 'threshold': 1.0}
+#   with the flag set to True.)
 #   Not reachable with columns that sum to 1 (then some letter has p >= 0.25, a non-negative rounded score).
 #   With the flag False such hits are not judged; everything else about these PWMs is.
 ASSERT_UNKNOWN_CHAR_ABOVE_HIGHEST_ATTAINABLE = False
